@@ -22,6 +22,9 @@ Step == /\ bad = "" /\ l <= Len(T.ev)
 TNext == Step
 TSpec == TInit /\ [][TNext]_tvars
 
+\* obs is a function of (tid, l): states are told apart by the position in the trace alone, so TLC does
+\* not fingerprint the (possibly thousands of signatures of the) observable state at every step
+TView == <<tid, l, bad>>
 Monitor == /\ (bad # "") => Verdict(T.id, FALSE, bad, l - 1)
            /\ (bad = "" /\ l = Len(T.ev) + 1) => Verdict(T.id, TRUE, "", l - 1)
 =============================================================================
